@@ -8,6 +8,10 @@ Pipeline:
   1. TLC on spec/MC_MapOps.tla (MC_MapOps_quick.cfg / MC_MapOps.cfg): invariants OpCorrect,
      Proportional, NoSpuriousChange of the transcribed step functions; exports one REPLAY line
      per maximal behaviour (expected outputs + expected user-function calls per stabilise).
+     Instances: the eleven single operators, the plain-sum folds fold_sum / fold_sum_upd (init 0,
+     a non-empty map can fold to init) and the chains chain_fm_map / chain_fm_fold
+     (incr_filter_map followed by incr_map / incr_unordered_fold on its output node; calls of both
+     stages in one log, role "f" = first stage, "g" / "add" / "remove" = second stage).
   2. harness/target/debug/mapops replays every behaviour against the real operators on every
      map type (BTreeMap, Rc<BTreeMap>, im_rc::OrdMap): output mismatch => C15, call-log mismatch
      => C17, panic => C04.
